@@ -78,6 +78,40 @@ func runC04(c *eng.Ctx) {
 			}
 			c.Check(fromSame, fmt.Sprintf("inputs-from-filtered-set[%d]", i), d.Instr, f, "the inputs are taken from the filtered work set (not from the original request)", "")
 		}
+		// every file left in the work set becomes an input of the merge — or the work fails: the caller marks ALL requested
+		// files as rolled up when doRollupWork returns nil, so a file that is silently passed over is lost for the targets
+		inputs := p.Sites(f, func(p *eng.Prog, in ssa.Instruction) bool {
+			cl, ok := in.(*ssa.Call)
+			if !ok {
+				return false
+			}
+			ks := p.CalleeKeys(cl)
+			return len(ks) == 1 && ks[0] == "builtin:append" && strings.Contains(cl.Type().String(), "version.FileMeta")
+		})
+		c.Check(len(inputs) > 0, "inputs-collected", nil, f, "doRollupWork collects the input files of the merge", "")
+		for i, g := range get {
+			_, notFound := eng.BoolCheckEdges(f, g.Instr.(ssa.Value))
+			for j, e := range notFound {
+				first := e.B.Succs[e.Succ].Instrs[0]
+				tgt := func(in ssa.Instruction) bool {
+					if _, ok := in.(*ssa.Next); ok {
+						return true
+					}
+					if in == run.Instr {
+						return true
+					}
+					return in.Parent() == f && instrIsSuccessReturn(f, in)
+				}
+				_, skipped := eng.PathExists(eng.PathQuery{Fn: f, After: first, Target: tgt, Blocked: func(in ssa.Instruction) bool { return instrIn(in, inputs) }})
+				if tgt(first) && !instrIn(first, inputs) {
+					skipped = true
+				}
+				c.Check(!skipped, fmt.Sprintf("no-requested-file-passed-over[%d,%d]", i, j), g.Instr, f,
+					"a requested source file that is not found in level 0 of the source's current version (it was compacted upwards meanwhile; the file itself is kept on disk for the rollup) still becomes an input, or the work fails — it is never skipped silently, because the caller then records it as rolled up",
+					"the not-found edge of GetFile reaches the next file / the job / a successful return without adding an input")
+			}
+			c.Check(len(notFound) > 0, fmt.Sprintf("lookup-outcome-tested[%d]", i), g.Instr, f, "the outcome of the level-0 lookup is tested", "")
+		}
 		// referenced lookup is keyed by this source family
 		srcArg := eng.CallArgs(live.Instr.(*ssa.Call))[0]
 		c.Check(eng.DependsOn(srcArg, func(x ssa.Value) bool { return strings.Contains(p.Desc(x), "sourceFamily.getStore()") }), "references-of-this-source", live.Instr, f, "the references consulted are those of the source store", "key "+p.Desc(srcArg))
@@ -96,12 +130,8 @@ func runC04(c *eng.Ctx) {
 				}
 			}
 			c.Check(sameFile, fmt.Sprintf("reference-names-the-input[%d]", i), r.Instr, f, "the reference record names exactly the file that becomes an input", "")
-			fs := facts.At(r.Instr)
-			okFound := facts.Find(fs, "true", func(_ string, v ssa.Value) bool {
-				e, ok := v.(*ssa.Extract)
-				return ok && e.Index == 1 && instrIn(e.Tuple.(ssa.Instruction), get)
-			}, nil)
-			c.Check(len(okFound) > 0, fmt.Sprintf("reference-only-for-existing-input[%d]", i), r.Instr, f, "a reference is recorded only for a file that exists in the source version (and is merged)", "")
+			c.Check(eng.DominatedBy(f, r.Instr, inputs, nil), fmt.Sprintf("reference-only-for-an-input[%d]", i), r.Instr, f,
+				"a reference is recorded only for a file that became an input of this merge (found in the source's version, or — since F24 — read from disk by its number because it was compacted upwards)", "")
 		}
 		add := c.One(f, eng.AnyCallTo(cmpT+".AddReferenceFiles"), "compaction.AddReferenceFiles(logs)")
 		c.Check(eng.DominatedBy(f, run.Instr, []eng.Site{add}, nil), "references-before-run", run.Instr, f, "the reference records are in the compaction's edit log before the job runs (they are committed with the output, C03 one-commit rule)", "")
@@ -251,6 +281,13 @@ func rollupCommitBeforeClean(c *eng.Ctx) {
 	}
 	cm := c.One(body, eng.CallTo(famT+".commitEditLog"), "f.commitEditLog(editLog)")
 	cl := c.Some(body, invokeOn("", "cleanReferenceFiles"), "targetFamily.cleanReferenceFiles")
+	committed, _ := eng.BoolCheckEdges(body, cm.Instr.(ssa.Value))
+	for i, x := range cl {
+		_, unsure := eng.PathExists(eng.PathQuery{Fn: body, After: cm.Instr, Target: func(in ssa.Instruction) bool { return in == x.Instr }, Edge: eng.ForbidEdges(committed)})
+		c.Check(len(committed) > 0 && !unsure, fmt.Sprintf("clean-only-after-the-source-commit-succeeded[%d]", i), x.Instr, body,
+			"a target forgets its reference records only when the source family's commit of the delete-rollup records SUCCEEDED (commitEditLog reports failure as false): after a failed commit the source still lists the files as to-be-rolled-up, and without the reference records the next rollup merges them into the target a second time",
+			"cleanReferenceFiles is reachable although commitEditLog returned false (its result is not tested)")
+	}
 	for i, x := range cl {
 		c.Check(eng.DominatedBy(body, x.Instr, []eng.Site{cm}, nil), fmt.Sprintf("source-commit<clean-references[%d]", i), x.Instr, body,
 			"the source family commits its delete-rollup records before any target forgets its reference records (otherwise a crash in between makes the next rollup merge the same files again)",
